@@ -139,6 +139,7 @@ func (ig *ingest) onEffect(e *Effect) {
 	k := ig.k
 	a := ig.a
 	ig.gates(e)
+	ig.roundRules(e)
 	switch {
 	case e.Kind == "call" && e.Name == "rawmessagesfilter.HandleConsensusMessage":
 		ig.deliver(e)
@@ -179,7 +180,7 @@ func (ig *ingest) onEffect(e *Effect) {
 		if e.Config == "vc-proof-and-block" && storeKind[e.Name] == "VC" && isNetMsg(m) {
 			ev := a.NewEval(e, ig.r)
 			H := hdr(m)
-			ev.Require("VC8", props("C08", "C09"), "a vote carrying both a proof and a block is stored only if the block matches the proof's hash", "net",
+			ev.Require("VC8", props("C08", "C09", "C11"), "a vote carrying both a proof and a block is stored only if the block matches the proof's hash", "net",
 				Truth(Call("interfaces.ValidateBlockCommitment", k.BU, ht(H), blockOf(m), hash(Call("protocol.PreprepareBlockRef", proofOf(H))))))
 		}
 	case e.Kind == "store" && e.Name == "termincommittee.TermInCommittee.latestViewThatProcessedVCMOrNVM":
@@ -209,7 +210,7 @@ func (ig *ingest) deliver(e *Effect) {
 	if e.Entry == idE1 {
 		ev.Require("F1.own", props("C08", "C17"), "a delivered message is not the node's own", "net", Ne(mid(snd(m)), Field(rmf, "myMemberId")))
 		ev.Require("F1.height", props("C08", "C17"), "a delivered message's height equals the current height (not past, not future)", "net", Eq(ht(H), k.SHeight))
-		ev.Require("F1.instance", props("C08", "C17"), "a delivered message belongs to this instance", "net", Eq(inst(H), Field(rmf, "instanceId")))
+		ev.Require("F1.instance", props("C08", "C17", "C03"), "a delivered message belongs to this instance", "net", Eq(inst(H), Field(rmf, "instanceId")))
 		ev.Require("F1.handler", props("C17"), "delivery only to a non-nil handler", "net", Ne(This("rawmessagesfilter.ConsensusMessagesHandler"), tNil))
 	} else {
 		// drained messages: read at the key Read(State.height)
@@ -252,7 +253,7 @@ func (ig *ingest) cacheInsert(e *Effect) {
 	ev.Verdict("F4.form", props("C17"), "cache values are built as []{m} or append(old[key], m) (order preserving)", "net", okForm, "value form "+val.Key())
 	H := hdr(m)
 	ev.Require("F2.own", props("C08", "C17"), "a cached message is not the node's own", "net", Ne(mid(snd(m)), Field(rmf, "myMemberId")))
-	ev.Require("F2.instance", props("C08", "C17"), "a cached message belongs to this instance", "net", Eq(inst(H), Field(rmf, "instanceId")))
+	ev.Require("F2.instance", props("C08", "C17", "C03"), "a cached message belongs to this instance", "net", Eq(inst(H), Field(rmf, "instanceId")))
 	ev.Require("F2.future", props("C08", "C17"), "a cached message is for a future height", "net", Lt(k.SHeight, ht(H)))
 	ev.Verdict("F2.key", props("C08", "C17"), "the cache key is the message's own height", "net", ev.Same(key, ht(H)), "key "+key.Key())
 	ev.Require("F5.newest", props("C17"), "only the newest future height is cached", "net", Le(Field(rmf, "latestFutureBlockHeight"), key))
@@ -405,8 +406,8 @@ func (ig *ingest) nv14(e *Effect, ev *Eval, m, H *Term) {
 		return
 	}
 	vh := Call("protocol.SignedHeader", vote)
-	ev.Require("NV8.chosen", props("C07", safety), "the chosen (highest-proof) vote's signature over its own header verified", "embedded", k.Verify(vh, Call("protocol.Sender", vote)))
-	ig.requireProofValid(ev, "NV9.chosen", props("C07", safety), "embedded", k.SHeight, vw(H), proofOf(vh), vw(vh))
+	ev.Require("NV8.chosen", props("C07", "C04", safety), "the chosen (highest-proof) vote's signature over its own header verified", "embedded", k.Verify(vh, Call("protocol.Sender", vote)))
+	ig.requireProofValid(ev, "NV9.chosen", props("C07", "C04", safety), "embedded", k.SHeight, vw(H), proofOf(vh), vw(vh))
 }
 
 func (ig *ingest) ingPPLocked(e *Effect, ev *Eval, m, H *Term) {
@@ -585,7 +586,7 @@ func (ig *ingest) ingNV(e *Effect, ev *Eval, m *Term) {
 	P := Call("protocol.Message", content(m))
 	PH := Call("protocol.SignedHeader", P)
 	votes := Call("protocol.ViewChangeConfirmationsIterator", H)
-	ev.Require("NV1", props("C07", "C08"), "a NEW_VIEW for a view below the current one is ignored", "net", Le(k.SView, vw(H)))
+	ev.Require("NV1", props("C07", "C08", "C10"), "a NEW_VIEW for a view below the current one is ignored", "net", Le(k.SView, vw(H)))
 	ev.Require("NV2", props("C07", safety), "a NEW_VIEW is accepted only after its signature over its own header verified", "net", k.Verify(H, S))
 	ev.Require("NV3", props("C07", safety), "a NEW_VIEW is accepted only from the leader of its view", "net", Eq(mid(S), k.LeaderOf(vw(H))))
 	ev.Require("NV4", props("C07", "C08", safety), "a NEW_VIEW's signed header is typed NEW_VIEW", "net", Eq(mtype(H), k.ProtoConst("LEAN_HELIX_NEW_VIEW")))
@@ -595,7 +596,7 @@ func (ig *ingest) ingNV(e *Effect, ev *Eval, m *Term) {
 	ev.Require("NV6", props("C07", safety), "every embedded vote is for the NEW_VIEW's height and view", "net",
 		ForAll(votes, Eq(ht(vh), ht(H))), ForAll(votes, Eq(vw(vh), vw(H))))
 	ev.Require("NV7", props("C07", safety), "embedded votes come from pairwise distinct senders", "net", Unique(votes, mid(vs)))
-	ev.Require("NV8", props("C07", safety), "every embedded vote's signature over its own header verified", "net", ForAll(votes, k.Verify(vh, vs)))
+	ev.Require("NV8", props("C07", "C04", safety), "every embedded vote's signature over its own header verified", "net", ForAll(votes, k.Verify(vh, vs)))
 	// NV9: every vote's proof validated
 	ok9 := false
 	for _, b := range ev.Find(ForAll(votes, Truth(Call("proofsvalidator.ValidatePreparedProof", Var("h"), Var("v"), Call("protocol.PreparedProof", vh), Var("km"), Var("cmt"), Var("leader"))))) {
@@ -603,7 +604,7 @@ func (ig *ingest) ingNV(e *Effect, ev *Eval, m *Term) {
 			ok9 = true
 		}
 	}
-	ev.Verdict("NV9", props("C07", safety), "every embedded vote's prepared proof passes ValidatePreparedProof", "net", ok9, "no forall(votes, ValidatePreparedProof(height, view, vote.proof, km, Cmt, LeaderOf))")
+	ev.Verdict("NV9", props("C07", "C04", safety), "every embedded vote's prepared proof passes ValidatePreparedProof", "net", ok9, "no forall(votes, ValidatePreparedProof(height, view, vote.proof, km, Cmt, LeaderOf))")
 	ev.Require("NV10", props("C07"), "every embedded vote's sender is a committee member", "net", ForAll(votes, k.Member(mid(vs))))
 	ev.Require("NV11.type", props("C07", "C08"), "every embedded vote's signed header is typed VIEW_CHANGE", "net", ForAll(votes, Eq(mtype(vh), k.ProtoConst("LEAN_HELIX_VIEW_CHANGE"))))
 	ev.Require("NV11.instance", props("C07", "C08"), "every embedded vote belongs to the NEW_VIEW's instance", "net", ForAll(votes, Eq(inst(vh), inst(H))))
